@@ -1,7 +1,7 @@
 """C06 - declared metadata type is bound to the role by signed content alone."""
 from __future__ import annotations
 
-from sa.terms import C, CallT, P, Sub, SubC, is_call, is_lit, show, show_fact, subterms
+from sa.terms import C, CallT, G, P, Sub, SubC, is_call, is_lit, show, show_fact, subterms
 from sa.walker import State, flatten_events
 
 from . import own_site, CHECKER, VSIG, call_events, flat, fn_site, loc, mentions
@@ -105,6 +105,18 @@ def run(ctx):
             # a predicate asked about the signed part said no, and its every "no" refutes the checker
             for f in st.closure():
                 if f[0] == "ret" and f[2] is False and is_call(f[1]) and f[1][1].startswith("repo:") and f[1][2] and (f[1][2][0] == SubC(U, "signed") or mentions(f[1][2][0], SubC(U, "signed"))) and _no_means_not_delegating(eng, f[1]):
+                    disc_failed.append(f)
+        if not disc_ok and not disc_failed:
+            # tests written out in place that refute the schema: the signed part is not a dict, or
+            # the type it declares is none of the supported delegating types
+            Us = SubC(U, "signed")
+            sup = G("const:common.SUPPORTED_DELEGATING_METADATA_TYPES")
+            for f in st.closure():
+                if f[0] == "nottype" and f[1] == Us and "dict" in f[2]:
+                    disc_failed.append(f)
+                elif f[0] == "nothas" and f[1] == Us and f[2] in [C(k) for k in REQUIRED_ENTRIES]:
+                    disc_failed.append(f)
+                elif f[0] == "notin" and f[2] == sup and (f[1] == Sub(Us, C("type")) or (is_call(f[1], "method:get") and f[1][2][:2] == (Us, C("type")))):
                     disc_failed.append(f)
         compared = st.holds(("eq", name, ty)) or st.holds(("eq", ty, name))
         if disc_ok:
